@@ -53,3 +53,270 @@ def build():
     P(TT_C, 'TranspositionTable::setWhiteContempt')
     P(TT_H, 'TTStorage::resize')
     return U
+
+
+# ------------------------------------------------------------------------------------------
+# Spec text (placed before the prototypes so that contracts can use it)
+# ------------------------------------------------------------------------------------------
+SPEC = r'''
+/* index-computation invariant established by setUsedSize (C08: "for every table size the engine
+   can configure (>= 512 entries) and every key, all accesses stay inside the table") */
+#define TT_IDX_INV(t) ( (t)->usedSize >= 512 && (t)->usedSize <= (1ULL << 44) \
+  && (t)->usedSizeTopBits >= 128 && (t)->usedSizeTopBits < 256 \
+  && (t)->usedSizeShift >= 2 && (t)->usedSizeShift <= 37 \
+  && (((U64)(t)->usedSizeTopBits) << (t)->usedSizeShift) <= (t)->usedSize \
+  && (t)->usedSize < ((((U64)(t)->usedSizeTopBits) + 1) << (t)->usedSizeShift) \
+  && (t)->usedSizeMask == (((1ULL << (t)->usedSizeShift) - 1) & ~3ULL) )
+#define TB_SIZE (5ULL * 1024 * 1024)      /* bytes reserved for an on-demand tablebase */
+#define ENT_EQ(a, b) ((a).key == (b).key && (a).data == (b).data)
+U64 ghost_j, ghost_k; int ghost_q;
+/* record layout as documented in transpositionTable.hpp (move 0/16, score 16/16, depth 32/9, busy 41/1,
+   generation 42/4, type 46/2, evalScore 48/16) */
+static int spec_rec_move(U64 d)  { return (int)(d & 0xffff); }
+static int spec_rec_depth(U64 d) { return (int)((d >> 32) & 0x1ff); }
+static int spec_rec_busy(U64 d)  { return (int)((d >> 41) & 1); }
+static int spec_rec_gen(U64 d)   { return (int)((d >> 42) & 15); }
+static int spec_rec_type(U64 d)  { return (int)((d >> 46) & 3); }
+static int spec_rec_eval(U64 d)  { U16 w = (U16)(d >> 48); return w >= 32768 ? (int)w - 65536 : (int)w; }
+static int spec_rec_score(U64 d, int ply) {
+    U16 w = (U16)(d >> 16); int sc = w >= 32768 ? (int)w - 65536 : (int)w;
+    if (sc > SearchConst_MATE0 / 2) sc -= ply; else if (sc < -(SearchConst_MATE0 / 2)) sc += ply;
+    return sc;
+}
+#define SPEC_BYTE(t, idx) ((U8)(((((idx) % 16) < 8) ? (t)[(idx) / 16].key : (t)[(idx) / 16].data) >> (((idx) % 8) * 8)))
+'''
+
+CONTRACTS = {
+    'TranspositionTable_setUsedSize': {
+        'requires': ['__CPROVER_is_fresh(self, sizeof(*self))', 's >= 512 && s <= (1ULL << 44)'],
+        'assigns': ['self->usedSize, self->usedSizeShift, self->usedSizeTopBits, self->usedSizeMask'],
+        'ensures': ['self->usedSize == s', 'TT_IDX_INV(self)'],
+        'loops': {0: {'assigns': 'topBits, self->usedSizeShift',
+                      'invariant': ['0 <= self->usedSizeShift && self->usedSizeShift <= 44',
+                                    'topBits == (self->usedSize >> self->usedSizeShift)',
+                                    'topBits >= 128'],
+                      'decreases': 'topBits'}},
+    },
+    'TranspositionTable_getIndex': {
+        'requires': ['__CPROVER_is_fresh(self, sizeof(*self))', 'TT_IDX_INV(self)'],
+        'assigns': [],
+        'ensures': ['__CPROVER_return_value % 4 == 0', '__CPROVER_return_value + 3 < self->usedSize'],
+    },
+    # storage encoding: the abstract view of a stored record is (key ^ data, data)
+    'TTEntry_store': {
+        'requires': ['__CPROVER_is_fresh(self, sizeof(*self))', '__CPROVER_is_fresh(ent, sizeof(*ent))'],
+        'assigns': ['ent->key, ent->data'],
+        'ensures': ['(ent->key ^ ent->data) == self->key', 'ent->data == self->data'],
+    },
+    'TTEntry_load': {
+        'requires': ['__CPROVER_is_fresh(self, sizeof(*self))', '__CPROVER_is_fresh(ent, sizeof(*ent))'],
+        'assigns': ['self->key, self->data'],
+        'ensures': ['self->key == (ent->key ^ ent->data)', 'self->data == ent->data'],
+    },
+    'TranspositionTable_probe': {
+        # the table object is modelled as exactly the used prefix: any access at or beyond usedSize
+        # (i.e. into a resident tablebase or out of the table) is a pointer-check failure
+        'requires': ['__CPROVER_is_fresh(self, sizeof(*self))', 'TT_IDX_INV(self)',
+                     '__CPROVER_is_fresh(self->table, self->usedSize * sizeof(struct TTEntryStorage))',
+                     '__CPROVER_is_fresh(result, sizeof(*result))', 'self->generation < 16', 'ghost_j < self->usedSize && ghost_k < self->usedSize'],
+        'assigns': ['__CPROVER_object_whole(self->table)', '*result'],
+        'ensures': [
+            # miss, or a record stored as one unit under exactly that key
+            'spec_rec_type(result->data) == TType_T_EMPTY || result->key == (key ^ self->contemptHash)',
+            # at most one slot changes (generation refresh of the hit)
+            '(ghost_j != ghost_k) ==> (ENT_EQ(self->table[ghost_j], __CPROVER_old(self->table[ghost_j])) || ENT_EQ(self->table[ghost_k], __CPROVER_old(self->table[ghost_k])))',
+            # a changed slot still decodes to the probed key, and only its generation field differs
+            '!ENT_EQ(self->table[ghost_j], __CPROVER_old(self->table[ghost_j])) ==> ((self->table[ghost_j].key ^ self->table[ghost_j].data) == (key ^ self->contemptHash) && (self->table[ghost_j].data & ~(15ULL << 42)) == (__CPROVER_old(self->table[ghost_j].data) & ~(15ULL << 42)) && (__CPROVER_old(self->table[ghost_j].key) ^ __CPROVER_old(self->table[ghost_j].data)) == (key ^ self->contemptHash))',
+        ],
+    },
+    'TranspositionTable_insert': {
+        'requires': ['__CPROVER_is_fresh(self, sizeof(*self))', 'TT_IDX_INV(self)',
+                     '__CPROVER_is_fresh(self->table, self->usedSize * sizeof(struct TTEntryStorage))',
+                     '__CPROVER_is_fresh(sm, sizeof(*sm))', 'self->generation < 16', 'ghost_j < self->usedSize && ghost_k < self->usedSize',
+                     '0 <= ply && ply <= 700', '-SearchConst_MATE0 <= sm->score_ && sm->score_ <= SearchConst_MATE0',
+                     'depth <= 511', '0 <= type && type <= 3', '-32768 <= evalScore && evalScore <= 32767',
+                     '0 <= sm->from_ && sm->from_ < 64 && 0 <= sm->to_ && sm->to_ < 64 && 0 <= sm->promoteTo_ && sm->promoteTo_ < 13'],
+        'assigns': ['__CPROVER_object_whole(self->table)'],
+        'ensures': [
+            # at most one slot of the whole table changes
+            '(ghost_j < self->usedSize && ghost_k < self->usedSize && ghost_j != ghost_k) ==> (ENT_EQ(self->table[ghost_j], __CPROVER_old(self->table[ghost_j])) || ENT_EQ(self->table[ghost_k], __CPROVER_old(self->table[ghost_k])))',
+            # a changed slot holds one complete record for exactly this key
+            '(ghost_j < self->usedSize && !ENT_EQ(self->table[ghost_j], __CPROVER_old(self->table[ghost_j]))) ==> ((self->table[ghost_j].key ^ self->table[ghost_j].data) == (key ^ self->contemptHash) && spec_rec_depth(self->table[ghost_j].data) == (depth < 0 ? 0 : depth) && spec_rec_type(self->table[ghost_j].data) == type && spec_rec_eval(self->table[ghost_j].data) == evalScore && spec_rec_gen(self->table[ghost_j].data) == self->generation && (spec_rec_busy(self->table[ghost_j].data) != 0) == (busy != 0) && spec_rec_score(self->table[ghost_j].data, ply) == sm->score_)',
+        ],
+    },
+    'TTEntry_setScore': {
+        'requires': ['__CPROVER_is_fresh(self, sizeof(*self))', '0 <= ply && ply <= 700',
+                     '-SearchConst_MATE0 <= score && score <= SearchConst_MATE0'],
+        'assigns': ['self->data'],
+        'ensures': ['spec_rec_score(self->data, ply) == score',
+                    # read at another ply q: shifted by exactly the ply difference
+                    '(0 <= ghost_q && ghost_q <= 700 && score > SearchConst_MATE0 / 2) ==> spec_rec_score(self->data, ghost_q) == score + ply - ghost_q',
+                    '(0 <= ghost_q && ghost_q <= 700 && score < -(SearchConst_MATE0 / 2)) ==> spec_rec_score(self->data, ghost_q) == score - ply + ghost_q',
+                    '(0 <= ghost_q && ghost_q <= 700 && score <= SearchConst_MATE0 / 2 && score >= -(SearchConst_MATE0 / 2)) ==> spec_rec_score(self->data, ghost_q) == score',
+                    '(self->data & ~(0xffffULL << 16)) == (__CPROVER_old(self->data) & ~(0xffffULL << 16))'],
+    },
+    'TTEntry_getScore': {
+        'requires': ['__CPROVER_is_fresh(self, sizeof(*self))', '0 <= ply && ply <= 700'],
+        'assigns': [],
+        'ensures': ['__CPROVER_return_value == spec_rec_score(self->data, ply)'],
+    },
+    'TranspositionTable_getByte': {
+        'requires': ['__CPROVER_is_fresh(self, sizeof(*self))', 'self->tableSize >= 4 && self->tableSize <= (1ULL << 44)',
+                     '__CPROVER_is_fresh(self->table, self->tableSize * sizeof(struct TTEntryStorage))',
+                     'idx < self->tableSize * sizeof(struct TTEntryStorage)'],
+        'assigns': [],
+        'ensures': ['__CPROVER_return_value == SPEC_BYTE(self->table, idx)'],
+    },
+    'TranspositionTable_putByte': {
+        'requires': ['__CPROVER_is_fresh(self, sizeof(*self))', 'self->tableSize >= 4 && self->tableSize <= (1ULL << 44)',
+                     '__CPROVER_is_fresh(self->table, self->tableSize * sizeof(struct TTEntryStorage))',
+                     'idx < self->tableSize * sizeof(struct TTEntryStorage)', 'ghost_j < self->tableSize * sizeof(struct TTEntryStorage)'],
+        'assigns': ['__CPROVER_object_whole(self->table)'],
+        'ensures': ['SPEC_BYTE(self->table, idx) == value',
+                    # every other byte of the table is unchanged (ghost byte index)
+                    '(ghost_j < self->tableSize * sizeof(struct TTEntryStorage) && ghost_j != idx) ==> SPEC_BYTE(self->table, ghost_j) == __CPROVER_old(SPEC_BYTE(self->table, ghost_j))'],
+    },
+    'TranspositionTable_byteSize': {
+        'requires': ['__CPROVER_is_fresh(self, sizeof(*self))', 'self->tableSize <= (1ULL << 44)'],
+        'assigns': [],
+        'ensures': ['__CPROVER_return_value == self->tableSize * 16'],
+    },
+    'TTStorage_resize': {
+        'requires': ['__CPROVER_is_fresh(self, sizeof(*self))', '__CPROVER_is_fresh(self->table, sizeof(*self->table))',
+                     'self->table->tableSize <= (1ULL << 44)', 'self->table->tableSize * 16 > size'],
+        'assigns': ['self->idx0'],
+        'ensures': ['self->idx0 == self->table->tableSize * 16 - size'],
+    },
+}
+
+CONTRACTS['TTEntry_isCutOff'] = {
+    'requires': ['__CPROVER_is_fresh(self, sizeof(*self))', '0 <= ply && ply <= 700',
+                 '-32767 <= alpha && alpha <= 32767 && -32767 <= beta && beta <= 32767'],
+    'assigns': [],
+    'ensures': [
+        # an empty slot never cuts
+        'spec_rec_type(self->data) == TType_T_EMPTY ==> !__CPROVER_return_value',
+        # bounds are only used in their own direction
+        '(__CPROVER_return_value && spec_rec_type(self->data) == TType_T_GE) ==> spec_rec_score(self->data, ply) >= beta',
+        '(__CPROVER_return_value && spec_rec_type(self->data) == TType_T_LE) ==> spec_rec_score(self->data, ply) <= alpha',
+        # a too shallow entry cuts only with a mate score on the right side of the window
+        '(__CPROVER_return_value && spec_rec_depth(self->data) < depth) ==> ((spec_rec_score(self->data, ply) > SearchConst_MATE0 / 2 && spec_rec_score(self->data, ply) >= beta && spec_rec_type(self->data) != TType_T_LE) || (spec_rec_score(self->data, ply) < -(SearchConst_MATE0 / 2) && spec_rec_score(self->data, ply) <= alpha && spec_rec_type(self->data) != TType_T_GE))',
+        # a lower-bound (or exact) winning mate score >= beta cuts regardless of depth
+        '(spec_rec_score(self->data, ply) > SearchConst_MATE0 / 2 && spec_rec_score(self->data, ply) >= beta && (spec_rec_type(self->data) == TType_T_GE || spec_rec_type(self->data) == TType_T_EXACT)) ==> __CPROVER_return_value',
+        '(spec_rec_score(self->data, ply) < -(SearchConst_MATE0 / 2) && spec_rec_score(self->data, ply) <= alpha && (spec_rec_type(self->data) == TType_T_LE || spec_rec_type(self->data) == TType_T_EXACT)) ==> __CPROVER_return_value',
+        # deep enough exact entries always cut
+        '(spec_rec_depth(self->data) >= depth && spec_rec_type(self->data) == TType_T_EXACT) ==> __CPROVER_return_value',
+    ],
+}
+
+HARNESS = r"""
+#ifdef CANARY
+#define CANARY_POINT __CPROVER_assert(0, "canary: harness end reachable")
+#else
+#define CANARY_POINT
+#endif
+U64 nondet_u64(void); int nondet_int(void); _Bool nondet_bool(void);
+#define HAVOC_GHOSTS do { ghost_j = nondet_u64(); ghost_k = nondet_u64(); ghost_q = nondet_int(); } while (0)
+
+void h_setUsedSize(void) { struct TranspositionTable* t; U64 s; HAVOC_GHOSTS; TranspositionTable_setUsedSize(t, s); CANARY_POINT; }
+void h_getIndex(void) { struct TranspositionTable* t; U64 key; HAVOC_GHOSTS; TranspositionTable_getIndex(t, key); CANARY_POINT; }
+void h_store(void) { struct TTEntry* e; struct TTEntryStorage* s; TTEntry_store(e, s); CANARY_POINT; }
+void h_load(void) { struct TTEntry* e; struct TTEntryStorage* s; TTEntry_load(e, s); CANARY_POINT; }
+void h_probe(void) { struct TranspositionTable* t; U64 key; struct TTEntry* r; HAVOC_GHOSTS; TranspositionTable_probe(t, key, r); CANARY_POINT; }
+void h_insert(void) { struct TranspositionTable* t; U64 key; struct Move* sm; int type, ply, depth, ev; _Bool busy = (nondet_int() != 0); /* a C++ bool is 0 or 1 */ HAVOC_GHOSTS;
+    TranspositionTable_insert(t, key, sm, type, ply, depth, ev, busy); CANARY_POINT; }
+void h_setScore(void) { struct TTEntry* e; int score, ply; HAVOC_GHOSTS; TTEntry_setScore(e, score, ply); CANARY_POINT; }
+void h_getScore(void) { struct TTEntry* e; int ply; TTEntry_getScore(e, ply); CANARY_POINT; }
+void h_isCutOff(void) { struct TTEntry* e; int a, b, ply, d; TTEntry_isCutOff(e, a, b, ply, d); CANARY_POINT; }
+void h_getByte(void) { struct TranspositionTable* t; U64 idx; TranspositionTable_getByte(t, idx); CANARY_POINT; }
+void h_putByte(void) { struct TranspositionTable* t; U64 idx; U8 v; HAVOC_GHOSTS; TranspositionTable_putByte(t, idx, v); CANARY_POINT; }
+void h_byteSize(void) { struct TranspositionTable* t; TranspositionTable_byteSize(t); CANARY_POINT; }
+void h_resize(void) { struct TTStorage* s; U32 size; TTStorage_resize(s, size); CANARY_POINT; }
+
+/* Lemma (torn reads): two records A,B stored as units; a reader sees any mix of their 64-bit words.
+   Whenever the decoded key equals a writer's key the decoded record is one of the two records
+   stored as a unit (both writers may use the same key).
+   store/load are used through their contracts. */
+void h_lemma_torn(void) {
+    struct TTEntry a, b, r; struct TTEntryStorage sa, sb, t; _Bool c0 = (nondet_int() != 0), c1 = (nondet_int() != 0);
+    a.key = nondet_u64(); a.data = nondet_u64(); b.key = nondet_u64(); b.data = nondet_u64();
+    TTEntry_store(&a, &sa); TTEntry_store(&b, &sb);
+    t.key = c0 ? sa.key : sb.key; t.data = c1 ? sa.data : sb.data;
+    TTEntry_load(&r, &t);
+    /* a reader probing for a key that either writer used gets a record one writer stored as a unit for that key */
+    __CPROVER_assert(!(r.key == a.key || r.key == b.key) || ENT_EQ(r, a) || ENT_EQ(r, b), "torn read: a hit for a writer's key returns that key's complete record, never a blend");
+    __CPROVER_assert(!(c0 && c1) || ENT_EQ(r, a), "untorn read of A returns A");
+    __CPROVER_assert(!(!c0 && !c1) || ENT_EQ(r, b), "untorn read of B returns B");
+    __CPROVER_assert(!(c0 && !c1) || r.key == (a.key ^ a.data ^ b.data), "mixed pair validates only for the xor-collision key");
+    CANARY_POINT;
+}
+
+/* Lemma (field independence, real accessor bodies): every setter changes exactly its own field. */
+void h_lemma_fields(void) {
+    struct TTEntry e; e.key = nondet_u64(); e.data = nondet_u64();
+    struct Move m0 = {0,0,0,0}; TTEntry_getMove(&e, &m0);
+    int mv0 = spec_rec_move(e.data), sc0 = (int)(S16)((e.data >> 16) & 0xffff), d0 = TTEntry_getDepth(&e); _Bool b0 = TTEntry_getBusy(&e);
+    int g0 = TTEntry_getGeneration(&e), t0 = TTEntry_getType(&e), ev0 = TTEntry_getEvalScore(&e); U64 k0 = TTEntry_getKey(&e);
+    __CPROVER_assert(d0 == spec_rec_depth(e.data) && b0 == spec_rec_busy(e.data) && g0 == spec_rec_gen(e.data) && t0 == spec_rec_type(e.data) && ev0 == spec_rec_eval(e.data), "getters read the documented bit fields");
+    int sel = nondet_int(); int v = nondet_int();
+    struct Move m; m.from_ = nondet_int(); m.to_ = nondet_int(); m.promoteTo_ = nondet_int(); m.score_ = nondet_int();
+    __CPROVER_assume(0 <= m.from_ && m.from_ < 64 && 0 <= m.to_ && m.to_ < 64 && 0 <= m.promoteTo_ && m.promoteTo_ < 16);
+    if (sel == 0) { TTEntry_setMove(&e, &m); struct Move r = {0,0,0,0}; r.score_ = 77; TTEntry_getMove(&e, &r);
+        __CPROVER_assert(r.from_ == m.from_ && r.to_ == m.to_ && r.promoteTo_ == m.promoteTo_ && r.score_ == 77, "setMove/getMove inverse, score untouched"); mv0 = spec_rec_move(e.data); }
+    else if (sel == 1) { __CPROVER_assume(0 <= v && v < 512); TTEntry_setDepth(&e, v); __CPROVER_assert(TTEntry_getDepth(&e) == v, "depth"); d0 = v; }
+    else if (sel == 2) { __CPROVER_assume(v == 0 || v == 1); TTEntry_setBusy(&e, v); __CPROVER_assert(TTEntry_getBusy(&e) == v, "busy"); b0 = v; }
+    else if (sel == 3) { __CPROVER_assume(0 <= v && v < 16); TTEntry_setGeneration(&e, v); __CPROVER_assert(TTEntry_getGeneration(&e) == v, "generation"); g0 = v; }
+    else if (sel == 4) { __CPROVER_assume(0 <= v && v < 4); TTEntry_setType(&e, v); __CPROVER_assert(TTEntry_getType(&e) == v, "type"); t0 = v; }
+    else if (sel == 5) { __CPROVER_assume(-32768 <= v && v < 32768); TTEntry_setEvalScore(&e, v); __CPROVER_assert(TTEntry_getEvalScore(&e) == v, "evalScore"); ev0 = v; }
+    else if (sel == 6) { U64 k = nondet_u64(); TTEntry_setKey(&e, k); k0 = k; }
+    else if (sel == 7) { __CPROVER_assume(-32768 <= v && v < 32768); TTEntry_setBits(&e, 16, 16, v); sc0 = v; }
+    __CPROVER_assert(spec_rec_move(e.data) == mv0 && (int)(S16)((e.data >> 16) & 0xffff) == sc0 && TTEntry_getDepth(&e) == d0 && TTEntry_getBusy(&e) == b0
+        && TTEntry_getGeneration(&e) == g0 && TTEntry_getType(&e) == t0 && TTEntry_getEvalScore(&e) == ev0 && TTEntry_getKey(&e) == k0,
+        "all other fields unchanged");
+    CANARY_POINT;
+}
+
+/* Lemma (TB region disjoint from hash accesses): with a resident tablebase of at most TB_SIZE bytes,
+   usedSize = tableSize - TB_SIZE/16 and idx0 = byteSize - size: every TB byte lies in an entry >= usedSize
+   (and inside the table), every hash access in an entry < usedSize (getIndex contract). */
+void h_lemma_tbregion(void) {
+    struct TranspositionTable t; struct TTStorage st; st.table = &t;
+    t.tableSize = nondet_u64(); U32 size = (U32)nondet_u64(); U32 i = (U32)nondet_u64();
+    __CPROVER_assume(t.tableSize % 4 == 0 && t.tableSize <= (1ULL << 44));
+    __CPROVER_assume(t.tableSize * 16 >= TB_SIZE + 2 * 1024 * 1024);   /* updateTB's own guard */
+    __CPROVER_assume(size <= TB_SIZE && i < size && size > 0);
+    TTStorage_resize(&st, size);
+    U64 used = t.tableSize - TB_SIZE / 16;
+    U64 byteIdx = st.idx0 + i;
+    __CPROVER_assert(byteIdx / 16 >= used, "TB byte lies at or above usedSize");
+    __CPROVER_assert(byteIdx < t.tableSize * 16, "TB byte lies inside the table");
+    __CPROVER_assert(used >= 512, "reduced size stays in the domain of the index proof");
+    CANARY_POINT;
+}
+"""
+
+# constant-trip loops (4 slots per bucket): unrolled completely, with unwinding assertions
+UNWIND = {'TranspositionTable_probe': 5, 'TranspositionTable_insert': 5}
+GROUPS = [
+    Group('setUsedSize', 'h_setUsedSize', enforce='TranspositionTable_setUsedSize', loop_contracts=True,
+          no_unwind_funcs=('TranspositionTable_setUsedSize',), min_props=20, expect_loop_props=1),
+    Group('getIndex', 'h_getIndex', enforce='TranspositionTable_getIndex', min_props=5),
+    Group('store', 'h_store', enforce='TTEntry_store', min_props=3),
+    Group('load', 'h_load', enforce='TTEntry_load', min_props=3),
+    Group('probe', 'h_probe', enforce='TranspositionTable_probe', replace=('TTEntry_load', 'TTEntry_store'), min_props=10),
+    Group('insert', 'h_insert', enforce='TranspositionTable_insert', replace=('TTEntry_load', 'TTEntry_store', 'TTEntry_setScore', 'TTEntry_getScore'), min_props=10, timeout=900),
+    Group('setScore', 'h_setScore', enforce='TTEntry_setScore', min_props=5),
+    Group('getScore', 'h_getScore', enforce='TTEntry_getScore', min_props=3),
+    Group('isCutOff', 'h_isCutOff', enforce='TTEntry_isCutOff', replace=('TTEntry_getScore',), min_props=7),
+    Group('getByte', 'h_getByte', enforce='TranspositionTable_getByte', min_props=3),
+    Group('putByte', 'h_putByte', enforce='TranspositionTable_putByte', min_props=3),
+    Group('byteSize', 'h_byteSize', enforce='TranspositionTable_byteSize', min_props=1),
+    Group('resize', 'h_resize', enforce='TTStorage_resize', replace=('TranspositionTable_byteSize',), min_props=2),
+    Group('lemma_torn', 'h_lemma_torn', replace=('TTEntry_load', 'TTEntry_store'), min_props=5),
+    Group('lemma_fields', 'h_lemma_fields', min_props=10),
+    Group('lemma_tbregion', 'h_lemma_tbregion', replace=('TranspositionTable_byteSize',), min_props=3),
+]
+PROPERTIES = {
+    'C08': ['setUsedSize', 'getIndex', 'store', 'load', 'probe', 'insert', 'setScore', 'getScore', 'getByte', 'putByte',
+            'byteSize', 'resize', 'lemma_torn', 'lemma_fields', 'lemma_tbregion'],
+}
